@@ -83,8 +83,13 @@ func (e *Env) buildDid(op *Op, a *Actor) (*Built, string) {
 			}
 		}
 		var sig string
-		if op.Mis == "eip155" {
+		if op.Mis == "eip155" || op.Mis == "eip155mixed" {
 			_, addr := ethKeyOf(acc)
+			if op.Mis == "eip155mixed" {
+				// the same account written in EIP-55 checksum (mixed-case) spelling
+				k, _ := ethcrypto.ToECDSA(acc.Priv.Key)
+				addr = ethcrypto.PubkeyToAddress(k.PublicKey).Hex()
+			}
 			accId = "eip155:1:" + addr
 			h := ethcrypto.Keccak256([]byte("\u0019Ethereum Signed Message:\n" + fmt.Sprint(len(msgText)) + msgText))
 			k, _ := ethcrypto.ToECDSA(signer.Priv.Key)
@@ -114,6 +119,9 @@ func (e *Env) buildDid(op *Op, a *Actor) (*Built, string) {
 		accountDid := acc.Did
 		if op.Mis == "eip155" {
 			accountDid = acc.Did + "eth"
+		}
+		if op.Mis == "eip155mixed" {
+			accountDid = acc.Did + "ethmix"
 		}
 		m := &didtypes.MsgBinding{
 			Creator: a.AddrS, AccountId: accId, RootDocId: root, Keys: keys,
